@@ -46,6 +46,7 @@ NEAR_VALID = {
     "enum": ["red", "R ED", "", "RED-1", "rEd"],
 }
 WIRE["Ids"] = ("idsPath", {"ids": ("path", 2)})
+WIRE["Ctx"] = ("ctxCall", {"p": ("path", 2), "hoa": ("header", "x-optalias"), "q": ("query", "q")})
 WIRE["Regex"] = ("regexPath", {"n": ("path", 2)})
 WIRE["Attrs"] = ("attrs", {"b": ("path", 2), "bee": ("path", 3), "sea": ("path", 4), "pq": ("query", "q1"), "hh": ("header", "x-h1"), "ls": ("query", "ls")})
 
@@ -87,6 +88,8 @@ def base_args(ep, salt):
         d["sea"] = 660000 + salt % 1000
         d["ls"] = [[mk("ls"), "", "x"], [""], [], [mk("ls")]][salt % 4]
         return d
+    if ep == "Ctx":
+        return {"p": mk("p"), "hoa": mk("hoa"), "q": mk("q")}
     if ep == "OptBody":
         return {"body": {"a": 810000 + salt % 1000}}
     if ep == "SafeBody":
@@ -208,7 +211,7 @@ def flavours(ep, k):
 def run_model(pid, tier):
     """TLC over all endpoint configs; returns (cases, states, transitions, runs, coverage)"""
     cases, states, transitions, runs, cov = [], 0, 0, [], {}
-    for ep in ("SafeMix", "Names", "NamesMacro", "Headers", "HeadersMacro", "Echo", "Attrs", "Regex", "Ids", "Path", "Query", "AuthCookie", "OptBody", "SafeBody"):
+    for ep in ("SafeMix", "Names", "NamesMacro", "Headers", "HeadersMacro", "Echo", "Attrs", "Regex", "Ids", "Path", "Query", "AuthCookie", "OptBody", "SafeBody", "Ctx"):
         r = vc.tlc(pid, "MCEndpoint", "MCEndpoint_%s%s.cfg" % (ep, "_t" if tier == "thorough" else ""), workers=4 if tier == "quick" else 12, timeout_s=3000)
         if r.error:
             raise vc.ToolError("MCEndpoint_%s: %s" % (ep, r.error))
